@@ -93,6 +93,8 @@ fn witnesses(ctx: &mut Ctx) {
         "C03" => tokprops::c03_witness_astral(ctx),
         "C07" => dictprops::c07_witnesses(ctx),
         "C10" => miscprops::c10_witnesses(ctx),
+        "C14" => trainprops::c14_witness_no_bigram_feature(ctx),
+        "C16" => trainprops::c16_witness_dual_clamp(ctx),
         _ => {}
     }
 }
@@ -174,7 +176,7 @@ fn main() {
                 run_case(&mut ctx, &mut rng, &a.stage, &a.xdir);
             }
             let j = ctx.to_json(1, 0.0);
-            println!("{}", serde_json::to_string_pretty(&serde_json::json!({"violations": j["violations"], "evaluations": j["evaluations"], "notes": j["notes"]})).unwrap());
+            println!("{}", serde_json::to_string_pretty(&serde_json::json!({"violations": j["violations"], "evaluations": j["evaluations"], "notes": j["notes"], "buckets": j["buckets"]})).unwrap());
             std::process::exit(if ctx.violations.is_empty() { 0 } else { 1 });
         }
         "count-hashes" => {
